@@ -1207,6 +1207,10 @@ def selftest():
         "seg": ("seg-i32", "random", {"seed": 15, "lo": -7, "hi": 40, "steps": 300, "seglen": 50}),
         "matrix": ("seg-i32", "matrix", {"from": 100, "to": 104}),
         "layout": ("seg-i32", "layout", {"domains": "-70:229,0:31"}),
+        # the scale layer: bulk events of the three kinds of collection
+        "keybulk": ("keytree", "scale", {"rounds": "D", "deep": 300, "seed": 3}),
+        "ordsweep": ("maptree-i32", "scale", {"plan": "", "sweep_lo": 9, "sweep_hi": 12, "seed": 3}),
+        "segdense": ("seg-i32", "dense", {"lo": -7, "hi": 40, "seed": 3, "inject": 0, "bulk": 60}),
     }
     base = {}
     for name, (coll, drv, params) in runs.items():
@@ -1288,6 +1292,15 @@ def selftest():
     K.append(("seg point place", "layout", "LAYOUT", lambda e: e.get("op") == "point", lambda e: e.update(places=[e["places"][0] + 1])))
     K.append(("seg chunk count", "layout", "LAYOUT", lambda e: e.get("ev") == "new" and e.get("built") == 1, lambda e: e.update(count=e["count"] + 1)))
     K.append(("seg built flag", "layout", "LAYOUT", lambda e: e.get("ev") == "new" and e.get("built") == 1, lambda e: e.update(built=0, count=0)))
+
+    isbulk = lambda e: e.get("op") == "bulk" and e.get("out") == "ok"
+    K.append(("key bulk run shorter than logged", "keybulk", "RES_GET", lambda e: isbulk(e) and e["e"] == 1000, lambda e: e.update(hi=e["hi"] - 1)))
+    K.append(("key bulk expiration", "keybulk", "RES_PRED", lambda e: isbulk(e) and e["e"] == 5, lambda e: e.update(e=500)))
+    K.append(("ord bulk value rule", "ordsweep", "REFINE", lambda e: isbulk(e) and "snap" in e, lambda e: e.update(va=e["va"] + 1)))
+    K.append(("ord bulk snapshot loses a free slot", "ordsweep", "POOL", lambda e: isbulk(e) and "snap" in e and e["snap"]["free"], lambda e: e["snap"]["free"].pop()))
+    K.append(("ord bulk keys shifted", "ordsweep", "RES_GET", lambda e: isbulk(e) and e["lo"] == 1, lambda e: e.update(lo=3, hi=e["hi"] + 2)))
+    K.append(("seg bulk run shorter than logged", "segdense", "YIELD", isbulk, lambda e: e.update(n=e["n"] - 1)))
+    K.append(("seg bulk expiration", "segdense", "YIELD", isbulk, lambda e: e.update(e=0)))
 
     def one(k):
         title, tname, tag, sel, mut = k
